@@ -85,6 +85,8 @@ def generate(seed, tier, index):
             script.append({"op": "dev_blob"})
         else:
             script.append({"op": "gap", "dt": rng.choice([0.0, 0.001, 0.1, 1.0])})
+            if rng.random() < 0.5:
+                script[-1]["iters"] = rng.randint(1, 8)
     pos = (index // len(FAULTS)) % (n + 1)
     steps = script[:pos] + [{"op": "fault", "kind": fault, "cut": rng.random()}] + script[pos:]
     if thorough and rng.random() < 0.5:
@@ -246,7 +248,7 @@ def execute(scen):
             op = st["op"]
             who = st.get("who")
             if op == "gap":
-                sim.run_for(st["dt"])
+                sim.gap(st)
             elif op == "fault":
                 do_fault(st["kind"], st["cut"], st.get("victim", "victim"))
             elif op == "dev_text":
